@@ -429,3 +429,18 @@ def name_predicates(sc, dumps, fails):
             acct_hex = None if o.get("account") else sender_hex
             if not by_name and (owner is None or acct_hex != owner):
                 fails.append(("name updated by someone who is not the owner", {"scenario": sc, "step": k}))
+
+
+def vpr_buckets_sorted(d):
+    """(C02 d) every voting-power bucket, in memory and as stored, is strictly ordered by
+    account id (descending: orderedListAdd inserts before the first element whose id is <=)
+    and sits at index id[0] % 71"""
+    bad = []
+    for which in ("mem", "reload"):
+        for b in (d[which]["b"] or []):
+            ids = [x["id"] for x in b["l"]]
+            if any(a <= c for a, c in zip(ids, ids[1:])):
+                bad.append((which, b["i"], ids))
+            if any(int(x[:2], 16) % 71 != b["i"] for x in ids):
+                bad.append((which, b["i"], "wrong bucket index"))
+    return bad
